@@ -210,6 +210,8 @@ func (b *shapeBuilder) build(s *shape) AV {
 	panic("unknown shape " + s.K)
 }
 
+var termDeep = false
+
 func termShapes() []*shape {
 	leaves := []*shape{{K: "return"}, {K: "panic"}, {K: "expr"}, {K: "break"}, {K: "continue"}, {K: "fallthrough"}, {K: "empty"}}
 	var l1 []*shape
@@ -249,6 +251,18 @@ func termShapes() []*shape {
 			&shape{K: "labeled", Kids: []*shape{x}},
 			&shape{K: "select", Kids: []*shape{x}},
 		)
+	}
+	if termDeep {
+		// level 3: wrap every level-2 shape once more in each composite that affects termination
+		n := len(all)
+		for _, x := range all[len(leaves)+len(l1) : n] {
+			all = append(all,
+				&shape{K: "block", Kids: []*shape{x}},
+				&shape{K: "if", Kids: []*shape{x, ret}},
+				&shape{K: "for", Kids: []*shape{x}},
+				&shape{K: "switch", Default: true, Kids: []*shape{x, ret}},
+			)
+		}
 	}
 	return all
 }
